@@ -427,6 +427,26 @@ def wrappers_forward_options(S, rep, rule="C10.w", family_root="VirtualBoundaryF
         raise Unsupported("expected at least %d constructor chains below %s, found %d" % (min_found, family_root, found))
 
 
+def spacing_from_current_state(S, rep):
+    """(d) the coefficients are scaled by the maximum spacing of the markers as they are: a grid that reports the spacing of
+    the body's reference configuration (`rest_lengths`, `rest_*`) scales every force wrongly once the body is pre-strained"""
+    idx = class_index(S.repo)
+    n = 0
+    for name in sorted(idx):
+        cls, rel = idx[name]
+        f = next((x for x in cls.body if isinstance(x, ast.FunctionDef) and x.name == "get_maximum_lagrangian_grid_spacing"), None)
+        if f is None or not any(isinstance(x, ast.Return) and x.value is not None for x in ast.walk(f)):
+            continue
+        n += 1
+        attrs = sorted({x.attr for x in ast.walk(f) if isinstance(x, ast.Attribute)})
+        ref = [a for a in attrs if a.startswith("rest_") or a.startswith("reference_") or a.endswith("_rest")]
+        rep.ob("C10.d", "%s marker spacing comes from the current configuration" % name, not ref,
+               "spacing is computed from %s (reference configuration)" % ref if ref else "uses %s" % attrs,
+               key="C10.d|spacing|%s|%s" % (name, ref), nontrivial=False)
+    if n < 6:
+        raise Unsupported("expected the spacing methods of the forcing grids, found %d" % n)
+
+
 def run(S, tier, rep):
     rep.rule_text = ("single-writer / effect / def-use rules: the interaction class is instantiated abstractly with a stub forcing grid; "
                      "its entry points are traced; stores into the integral, the flow velocity and instance attributes are enumerated; the "
@@ -445,6 +465,7 @@ def run(S, tier, rep):
                 # (a transposed constructor argument makes the abstract instance meaningless, e.g. a thread count used as a flag:
                 # the forwarding violation above is the finding)
     who_may_write(S, rep)
+    spacing_from_current_state(S, rep)
     rep.require_min("C10.a", 30)
     rep.require_min("C10.b", 20)
     rep.require_min("C10.d", 8)
